@@ -118,6 +118,8 @@ func loadProgram() (*Program, error) {
 		Dir:  harness,
 		Env:  goEnv(),
 		Fset: fset,
+		// the guard tag of the hooks: contract files (comment-only) and verification harness functions
+		BuildFlags: []string{"-tags=verif"},
 	}
 	pkgs, err := packages.Load(cfg, loadPatterns...)
 	if err != nil {
